@@ -311,3 +311,15 @@ package db
 //@   callsite ).Prev$ [reverse-moves-backwards] itr.isReverse
 //@   callsite Iterator).Next$ [forward-moves-forwards] !itr.isReverse
 //@   modifies *
+
+// the constructor: the view's iterator starts valid only on a parent key that lies under the prefix; a parent key
+// equal to the bare prefix (the empty key of the view) is stepped over first. (That the key after it is longer than
+// the prefix follows from the parent iterator's strict order, which is not part of its assumed contract.)
+//@ func newPrefixIterator(prefix, start, end, source) (it)
+//@   props C18
+//@   nosafety
+//@   requires source != nil
+//@   ensures [wrapped-as-given] it != nil && it.source == source && it.prefix == prefix && it.start == start && it.end == end && it.err == nil
+//@   ensures [valid-only-on-a-key-under-the-prefix] it.valid ==> itvalid[source] && len(prefix) <= len(itkeyS[source]) && forall(i, imp(0 <= i && i < len(prefix), at(itkeyS[source], i) == at(prefix, i)))
+//@   callsite Iterator).Next$ [steps-over-the-bare-prefix-key-only] itvalid[source] && ord(itkeyS[source]) == ord(prefix)
+//@   modifies *
